@@ -1,4 +1,4 @@
-From Tramp Require Import Model.Base Model.Node Model.Provider Model.ProviderSys Proofs.ProviderProofs Props.C16.
+From Tramp Require Import Model.Base Model.Node Model.Provider Model.ProviderSys Proofs.ProviderProofs Proofs.ProviderTyped Props.C16.
 Check C16_pay : forall (parts0 : list pstat) (b : list N) (a : option N) (f d rt : N) (evs : list pevent),
   hist_ok (pay_init parts0 (QPay b a f d rt)) evs = true ->
   let s := prun (pay_init parts0 (QPay b a f d rt)) evs in
@@ -8,7 +8,20 @@ Check C16_pay : forall (parts0 : list pstat) (b : list N) (a : option N) (f d rt
   | PNone => (forall i st, nth_error (parts (ps_nd s)) i = Some st -> st = PFailed) /\ payrun (ps_nd s) = 0
   | PErr => True
   end.
+Check C16_failure_is_final_without_read_errors : forall (parts0 : list pstat) (b : list N) (a : option N) (f d rt : N) (evs : list pevent),
+  hist_ok (pay_init parts0 (QPay b a f d rt)) evs = true ->
+  hist_clean (pay_init parts0 (QPay b a f d rt)) evs = true ->
+  let s := prun (pay_init parts0 (QPay b a f d rt)) evs in
+  forall r, ps_st s = SFin r ->
+  match r with
+  | POk p => In (PDone p) (parts (ps_nd s))
+  | PNone | PErr => (forall i st, nth_error (parts (ps_nd s)) i = Some st -> st = PFailed) /\ payrun (ps_nd s) = 0
+  end.
+(* the fault-freedom hypothesis is pinned as a definition *)
+Check (eq_refl : hist_clean = fix hist_clean (s : psys) (evs : list pevent) {struct evs} : bool :=
+  match evs with [] => true | ev :: r => no_read_fault s ev && hist_clean (pstep s ev) r end).
 Print Assumptions C16_pay.
 Print Assumptions C16_err_only_from_read_error.
 Print Assumptions C16_needs_N2.
 Print Assumptions C16_nonvacuous.
+Print Assumptions C16_failure_is_final_without_read_errors.
